@@ -70,6 +70,37 @@ def _probes(ctx: Ctx, f: FuncInfo, self_env: dict[str, Any] | None = None) -> li
     return out
 
 
+def _under_clear_flag(f, n: ast.AST) -> bool:
+    """The statement runs only when the enclosing restore function's `_clear_state` parameter (default False) is true: directly
+    under such a test, or in a local helper every call of which is."""
+    from .common import known_at
+
+    def flag_fn(g) -> bool:
+        a = g.node.args
+        names = [x.arg for x in a.args + a.kwonlyargs]
+        if "_clear_state" not in names:
+            return False
+        defaults = dict(zip([x.arg for x in a.args][len(a.args) - len(a.defaults):], a.defaults))
+        defaults.update({k.arg: d for k, d in zip(a.kwonlyargs, a.kw_defaults) if d is not None})
+        d = defaults.get("_clear_state")
+        return isinstance(d, ast.Constant) and d.value is False
+
+    st = n
+    while not isinstance(st, ast.stmt):
+        st = st.parent  # type: ignore[attr-defined]
+    if flag_fn(f):
+        return known_at(st, "_clear_state")
+    par = f.parent
+    if par is not None and flag_fn(par):
+        calls = [c for c in own_nodes(par.node) if isinstance(c, ast.Call) and isinstance(c.func, ast.Name) and c.func.id == f.name]
+        def stmt_of(c: ast.AST) -> ast.stmt:
+            while not isinstance(c, ast.stmt):
+                c = c.parent  # type: ignore[attr-defined]
+            return c  # type: ignore[return-value]
+        return bool(calls) and all(known_at(stmt_of(c), "_clear_state") for c in calls)
+    return False
+
+
 def check(ctx: Ctx) -> list[RuleResult]:
     repo = ctx.repo
     out: list[RuleResult] = []
@@ -222,8 +253,10 @@ def check(ctx: Ctx) -> list[RuleResult]:
             n_sites += 1
             r4.instances += 1
             r4.nontrivial += 1
-            if f.name in ("__init__", "clear_state") and kind == "re-assignment":
-                r4.ok({"site": f"{f.short}: self.{attr} = ...", "why": "constructor / test-only clear_state"})
+            if f.name == "__init__" and kind == "re-assignment":
+                r4.ok({"site": f"{f.short}: self.{attr} = ...", "why": "constructor"})
+            elif kind == "re-assignment" and _under_clear_flag(f, n):
+                r4.ok({"site": f"{f.short}: self.{attr} = ...", "why": "explicit reset, reached only under the restore's _clear_state flag (default False)"})
             else:
                 r4.fail(f"{f.short}:{attr}:{kind}", f.loc(n), f"{f.short} shrinks/replaces the topology container `{attr}` ({kind}): something that was learned could be lost")
     if n_sites < 8:
